@@ -150,4 +150,14 @@ let check inp obs =
                 Printf.sprintf "%s%s" (String.concat "; " !why) (if eq then "" else " model=" ^ model)) }
   | _ -> fail "C23: bad input %s" inp
 
-let () = run_driver check
+(* `model --sweep nb dmax kmax`: the exhaustive comparison of Enum.explore_all run by the extracted
+   code (cross-checks the vm_compute sweeps of Exhaustive*.v and reaches larger scopes in the
+   thorough tier) *)
+let () =
+  if Array.length Sys.argv = 5 && Sys.argv.(1) = "--sweep" then begin
+    let a i = nat_of_int (int_of_string Sys.argv.(i)) in
+    let ok = explore_all (a 2) (a 3) (a 4) in
+    Printf.printf "sweep nb=%s dmax=%s kmax=%s configs=%d result=%b\n" Sys.argv.(2) Sys.argv.(3) Sys.argv.(4)
+      (int_of_nat (count_configs (a 2) (a 3) (a 4))) ok;
+    exit (if ok then 0 else 1)
+  end else run_driver check
